@@ -34,9 +34,11 @@ def run(ctx):
     ctx.rule("R10.2", "data-driven recursion guard (use cycles)")
     ctx.rule("R10.3", "every return of SVG.parse yields the root")
     ctx.rule("R10.4", "dangling references are skipped")
+    ctx.rule("R10.5", "skipping a faulty element keeps the context stack balanced")
     escape(ctx)
     recursion_guard(ctx)
     result_is_root(ctx)
+    balanced(ctx)
 
 
 # --------------------------------------------------------------------------- R10.1
@@ -191,3 +193,32 @@ def result_is_root(ctx):
         ctx.ob("R10.3", "SVG.parse[return line-order %d]" % n, ok, "returns %s" % v, r.lineno,
                "returning a nested element instead of the root discards every sibling parsed so far and everything after it")
     ctx.need(n >= 2, "R10.3", "SVG.parse: returns not found")
+
+
+# --------------------------------------------------------------------------- R10.5
+def balanced(ctx):
+    """An element that is skipped because of an error leaves through `continue`: on every such path the start event must
+    already have pushed exactly once and the end event must still pop exactly once, otherwise every later sibling lands
+    in the wrong parent with the wrong inherited values (shared path-counting rule with C03.3)."""
+    from .c03 import exits
+
+    fn = ctx.fn("SVG.parse", "R10.5")
+    loop = [s for s in fn.body if isinstance(s, ast.For)][0]
+    branches = {}
+    for s in loop.body:
+        if isinstance(s, ast.If):
+            for test, body in if_chain(s):
+                if test is not None:
+                    branches[ast.unparse(test)] = body
+    start, end = branches.get("event == 'start'"), branches.get("event == 'end'")
+    ctx.need(start is not None and end is not None, "R10.5", "start/end branches not found")
+    is_push = lambda s: isinstance(s, ast.Expr) and ast.unparse(s.value).startswith("stack.append(")
+    is_pop = lambda s: isinstance(s, ast.Assign) and "stack.pop()" in ast.unparse(s.value)
+    p = exits(start, is_push)
+    bad = [(k, c) for k, c in p if k in ("fall", "continue") and c != 1]
+    ctx.ob("R10.5", "SVG.parse[start: one push on every path, also the skip paths]", not bad, "paths (exit, pushes): %s" % p, start[0].lineno,
+           "an element skipped before it was pushed (or pushed twice) unbalances the stack")
+    q = exits(end, is_pop)
+    bad = [(k, c) for k, c in q if k in ("fall", "continue") and c != 1]
+    ctx.ob("R10.5", "SVG.parse[end: one pop on every path, also the skip paths]", not bad, "paths (exit, pops): %s" % q, end[0].lineno,
+           "an end event that leaves without popping makes every later sibling a child of the faulty element's parent chain")
